@@ -94,7 +94,7 @@ def strategy(tier):
 
 def enumerate_cases(tier):
     # a fixed core of tiny texts under every configuration (deterministic part of the search)
-    texts = ['  "hi"', '  "a"\nb', 'Bot message: "a"', 'a"', '"', "", 'ab"\nab', "a\nuser b", '  ""', '  "a" b"']
+    texts = ['  "hi"', '  "a"\nb', 'Bot message: "', 'a"', '"', "", 'ab"\nab', "a\nuser b", '  ""', '  "a" b"']
     for t in texts:
         for p in PREFIXES:
             for s in SUFFIXES:
@@ -229,4 +229,4 @@ def prop(case):
         labels.append("ambiguous-suffix-vs-stop")
     nt = _nontrivial(text, prefix, suffix, stop)
     view = {"text": text, "prefix": prefix, "suffix": suffix, "stop": stop, "pipe": case["pipe"], "chunkings": len(cuts_list), "delivered": expected}
-    return ok(nt=nt, labels=labels, view=view, key=None)
+    return ok(nt=nt, labels=labels, view=view, key=None, counters={"chunkings_run": len(cuts_list)})
